@@ -20,7 +20,7 @@ import math
 
 import numpy as np
 
-from ..core import parity, shape_class
+from ..core import shape_class
 from ..refmodels.diffops import (inner, norm, richardson_directional, richardson_elementwise,
                                  complex_step_elementwise)
 from ..util import precision
@@ -43,7 +43,7 @@ ASSUMPTIONS = [
     'finite differences are trusted only where the response |J d| exceeds 1e-5 |f(x)| (saturated soft-max and the like are '
     'excluded and counted)',
     'GumbelSoftmax is differentiated at fixed noise: the same seeded Generator is injected before every forward call',
-    'numpy.vdot / matmul round-off is far below 1e-9 relative for the sizes used (<= 48x48); observed <= 1e-13',
+    'numpy.vdot / matmul round-off is far below 1e-9 relative for the sizes used (<= 56x56); observed <= 1e-15',
 ]
 REQUIRED = []          # filled from the table below
 UNREACHABLE = ['focal-plane masks / Lyot stops given as Wavefront objects: the forward routine itself raises TypeError '
@@ -64,13 +64,6 @@ def crandn(rng, shape):
 
 def draw(rng, shape, kind):
     return crandn(rng, shape) if kind == 'c' else rng.standard_normal(shape)
-
-
-def kind3(shape):
-    """sq / nonsq / line."""
-    if 1 in shape:
-        return 'line'
-    return 'sq' if shape[0] == shape[1] else 'nonsq'
 
 
 def nz(v):
